@@ -4,7 +4,7 @@ CG = dict(units=["type.c"], mode="dfcc", enforce="gen_expr", rec=True, replace=[
 META = dict(
     level="other",
     claim="Caller side of the System V calling convention, per signature: the real gen_expr(ND_FUNCALL) (push_args, push_args2, push_struct, has_flonum, register loading loop, alignment padding) is executed on the ghost machine and, at the emitted call instruction, every argument is where psABI 3.2.3 places it (general/vector register by eightbyte class, memory arguments in order at rsp), %al counts the vector registers, rsp is 16-byte aligned, and afterwards the stack is restored. Argument values and struct contents are symbolic (proof per signature); the set of signatures is a chosen list that exhausts the general and vector registers with scalars and all six small-aggregate classes, so the quantifier over signatures is bounded.",
-    note="Trusted: CBMC, ghost machine, spec/psabi_call.h. Also: callee side (assign_lvar_offsets + the emit_text prologue stores: every parameter's home receives the register/stack slot the psABI assigns, per signature), aggregate returns <= 16 bytes (copy_ret_buffer / copy_struct_reg per class) and > 16 bytes (copy_struct_mem), has_flonum eightbyte classification on four shape families. Not covered: variadic register save area and va_arg, narrow return value normalisation. Known finding F06c: long double (16-byte aligned) memory arguments are not aligned.",
+    note="Trusted: CBMC, ghost machine, spec/psabi_call.h. Also: callee side (assign_lvar_offsets + the emit_text prologue stores: every parameter's home receives the register/stack slot the psABI assigns, per signature), aggregate returns <= 16 bytes (copy_ret_buffer / copy_struct_reg per class) and > 16 bytes (copy_struct_mem), has_flonum eightbyte classification on four shape families. For variadic callees the prologue's va_list is checked in a slot-size independent way: the register save area holds every argument register and gp_offset/fp_offset designate the saved copy of the first unnamed register of each class (scalar named parameters). Not covered: va_arg itself (include/stdarg.h), named aggregate or memory parameters of variadic functions, the layout of the save area against the psABI (chibicc uses 8-byte vector slots: a va_list handed to libc is wrong - seen, not repaired), narrow return value normalisation. Known finding F06c: long double (16-byte aligned) memory arguments are not aligned.",
     functions=["codegen.c:gen_expr", "codegen.c:push_args", "codegen.c:push_args2", "codegen.c:push_struct", "codegen.c:has_flonum", "codegen.c:struct_regs", "codegen.c:has_flonum1", "codegen.c:has_flonum2", "codegen.c:popf", "codegen.c:pop", "codegen.c:pushf", "codegen.c:push", "codegen.c:assign_lvar_offsets", "codegen.c:emit_text", "codegen.c:store_gp", "codegen.c:store_fp", "codegen.c:copy_struct_reg", "codegen.c:copy_ret_buffer"],
     trusted_base=["CBMC 6.11", "spec/x86_ghost.h", "spec/psabi_call.h"],
     assumptions=["argument expressions are abstract (their values/addresses symbolic)", "the callee clobbers caller-saved registers only"],
@@ -34,4 +34,7 @@ def jobs(tier):
                           sample=f"struct of class '{cls}' returned in registers, {'caller' if side else 'callee'} side", **PL))
     js.append(Job(name="call-iiiiiiil-sp0", src="call.c", group="C06 caller", defs={"SIG": '\'"iiiiiiil"\'', "SP0": "0", "LDOUBLE_ALIGN": ""},
                   bounded="chosen signature list (values symbolic)", sample="long double memory argument after an odd number of stack words", **CG))
+    for sg in ("i", "d", "id", "dd", "ii"):
+        js.append(Job(name=f"callee-variadic-{sg}", src="callee.c", group="C06 callee", defs={"SIG": '\'"%s"\'' % sg, "VARIADIC": "1", "GM_STK": "28"}, bounded="chosen signature list (values symbolic)",
+                      sample=f"prologue of a variadic function with named parameters '{sg}': the va_list designates the first unnamed argument registers", **PL))
     return js
